@@ -108,6 +108,8 @@ def jobs(tier):
     for cfg in (["oo", "po"] if tier == "quick" else ["oo", "po", "pp", "op"]):
         for ch in chains():
             for o in other:
+                if not A.disjoint(ch, [o]):
+                    continue            # (e.g. `delete a` against a cycle through a: not a non-conflicting pair)
                 for oname, order in ORDERS.items():
                     if tier == "quick" and oname == "sync-last":
                         continue
